@@ -15,6 +15,10 @@
 (*          src : "absent" | "empty" | "storyID" | "itemID" | "itemIDblank" | *)
 (*                "item" | "story"                              element_source *)
 (*          nest: a message tag nested INSIDE this (foreign) element, or None *)
+(*          tgt2, src2 : shape of a SECOND, later element_target /         *)
+(*                element_source block ("absent" = there is none).  Merging *)
+(*                reads the first block of each kind, so the first block    *)
+(*                alone decides the class.                                  *)
 (* C08: the class is decided only by the top-level message element.        *)
 (***************************************************************************)
 EXTENDS Naturals, Sequences, FiniteSets, TLC, Json
